@@ -90,6 +90,12 @@ type vc07LargeResult struct {
 	clause     string
 	detail     string
 	kinds      map[string]int
+	// storage / message-size seams
+	fired        bool   // a planned storage fault fired
+	firedLabel   string // at which step
+	oversize     int    // envelopes the stream refused because their serialized size exceeded the configured message size
+	oversizeKind string
+	maxEnvelope  map[string]int
 }
 
 // vc07RunLarge executes the fair schedule with the given deviations.
